@@ -22,7 +22,7 @@ def coord(rng, mode):
     if mode == 'medium':
         return rng.randint(0, 300)
     if mode == 'dense':
-        return rng.randint(0, 900)
+        return rng.randint(0, rng.choice([900, 4000]))
     if mode == 'u8':
         r = rng.random()
         if r < 0.4: return rng.randint(240, 255)
@@ -51,11 +51,23 @@ def rand_iv(rng, mode, kind):
 
 def rand_ivs(rng, mode, n, kind):
     if mode == 'dense' and n > 0:
-        # many short intervals (small max_len): binary searches and cursor walks pass dozens of entries
-        xs = sorted(rng.sample(range(0, 900), rng.choice([25, 40, 70])))
-        out = [(x, x + rng.randint(0 if kind in ('le', 'any') else 1, 4)) for x in xs]
-        if rng.random() < 0.3:
-            out.append((rng.randint(0, 400), rng.randint(500, 900)))      # plus one long interval
+        # many short intervals (small max_len): binary searches and cursor walks pass dozens of entries; sizes straddle
+        # typical internal thresholds (16, 64, 128 elements; counts that are not multiples of 8)
+        m = rng.choice([17, 25, 40, 65, 70, 71, 130, 150])
+        span = rng.choice([900, 900, 4000])
+        xs = sorted(rng.sample(range(0, span), m))
+        lo = 0 if kind in ('le', 'any') else 1
+        out = [(x, x + rng.randint(lo, 4)) for x in xs]
+        r = rng.random()
+        if r < 0.25:
+            out.append((rng.randint(0, 400), rng.randint(500, 900)))      # plus one long interval somewhere
+        elif r < 0.4:
+            a = rng.choice(xs[-5:])                                       # the longest interval among the LAST by start
+            out.append((a, a + rng.randint(300, 2000)))
+        elif r < 0.55:
+            # a pile of intervals sharing one start (often 0) with different stops
+            a = rng.choice([0, 0, 0, xs[len(xs) // 2]])
+            out += [(a, a + rng.randint(1, 60)) for _k in range(rng.choice([3, 9, 12, 20]))]
         rng.shuffle(out)
         return out
     out = []
